@@ -7,3 +7,10 @@ CARGO_NET_OFFLINE=true cargo +nightly build --release --offline 2>&1 | tail -3
 test -x target/release/wlint
 mkdir -p "$HERE/.cache" "$HERE/evidence"
 echo "setup ok"
+# warm the dependency artifacts of both cargo configurations so that the first check is not a cold build
+for cfg in "" "--features parallel"; do
+  OUT="$(mktemp -d)"
+  bash "$HERE/bin/run_wlint.sh" /repo "$OUT" $cfg >/dev/null 2>&1 || true
+  rm -rf "$OUT"
+done
+echo "caches warm"
